@@ -5,6 +5,9 @@
 // representations in both directions); the error bound is enumerated over (precision, n) for two fixed key families.
 // The state family merges every pair of operands in every representation state (sparse flushed, sparse with
 // pending un-flushed adds, dense) in both directions at the precisions where pending values exist (>= 7).
+// The own family enumerates every sequence of ownership / aliasing steps (up to a depth bound) after
+// MarshalBinary -> UnmarshalBinary(buf): the caller rewrites buf, sketches restored from the same bytes are added to,
+// merged, merged from and cloned; restored sketches, the original, the clone and buf must stay independent.
 package c35
 
 import (
@@ -57,6 +60,10 @@ type Case struct {
 	// state: two operands, each built by a recipe that leaves it in a chosen representation state
 	X *Operand `json:"x,omitempty"`
 	Y *Operand `json:"y,omitempty"`
+	// own: the sketch X is marshalled, the bytes are handed to UnmarshalBinary in the given buffer layout, then the
+	// steps run in order
+	Layout string   `json:"layout,omitempty"`
+	Steps  []string `json:"steps,omitempty"`
 }
 
 // Operand is a sketch recipe of the state family. Kind says how the keys are added:
@@ -469,6 +476,318 @@ func stateOperands(p uint8, sets [][]int) []*Operand {
 	return out
 }
 
+// ---- own: ownership / aliasing of the marshalled bytes, of restored, merged and cloned sketches
+//
+// A sketch o (an Operand recipe) is marshalled; the bytes are the caller's buffer buf. Two sketches r1 and r2 are
+// restored from the same buf with UnmarshalBinary. Then a sequence of steps runs; nothing is observed in between, the
+// oracle is judged once at the end (every prefix of a sequence is a case of its own, so the shortest failing
+// sequence is reported and un-flushed sparse state survives from one step to the next).
+//
+// Reference world: every real sketch has a twin that is built from the same recipe, marshalled once (MarshalBinary
+// flushes pending sparse values, the restored sketches start from that state) and receives the same Add / Merge calls,
+// but never went through UnmarshalBinary or Clone and never saw a caller's buffer. The buffer has a model copy that
+// receives only the harness' own writes.
+
+// ownSteps is the step alphabet. o = the original sketch, r1 r2 = the sketches restored from buf, c = the clone of r1,
+// ze zs zd = a fresh empty / small sparse / dense sketch of keys nobody else has.
+var ownSteps = []string{
+	"buf=00", "buf=ff", "buf=other", // the caller rewrites its buffer: zeroes, 0xff, the bytes of another sketch
+	"add(o)", "add(r1)", "add(r2)", // 16 new keys
+	"r1.merge(zs)", "r1.merge(zd)", "r2.merge(zs)", "r2.merge(zd)", // merge another sketch into a restored one
+	"ze.merge(r1)", "zs.merge(r1)", "ze.merge(r2)", "zs.merge(r2)", // merge a restored one into another, then add 16 keys to the result
+	"c=r1.clone", "add(c)",
+}
+
+// ownSeqs returns every valid step sequence of exactly the given length, in alphabet order: c is cloned at most
+// once and only used after it exists.
+func ownSeqs(length int) [][]string {
+	var out [][]string
+	var rec func(cur []string, cloned bool)
+	rec = func(cur []string, cloned bool) {
+		if len(cur) == length {
+			out = append(out, append([]string(nil), cur...))
+			return
+		}
+		for _, s := range ownSteps {
+			if (s == "add(c)" && !cloned) || (s == "c=r1.clone" && cloned) {
+				continue
+			}
+			rec(append(cur, s), cloned || s == "c=r1.clone")
+		}
+	}
+	rec(nil, false)
+	return out
+}
+
+// addFam0 adds the keys [from,to) of ladder family 0 (disjoint from the 24-key universe and from the family-1 keys
+// of the dense-grown recipe).
+func addFam0(h *hll.Plus, from, to int) {
+	for i := from; i < to; i++ {
+		h.Add(fam0Keys[i])
+	}
+}
+
+// fam0Keys: the family-0 keys the own family uses (step position j uses [1000(j+1), 1000(j+1)+316)).
+var fam0Keys = func() [][]byte {
+	out := make([][]byte, 6000)
+	for i := range out {
+		out[i] = ladderKey(0, i)
+	}
+	return out
+}()
+
+// mkZ builds the other sketch of a merge step; base makes the keys of every step position distinct.
+func mkZ(p uint8, kind string, base int) *hll.Plus {
+	h := newPlus(p)
+	switch kind {
+	case "ze":
+	case "zs":
+		addFam0(h, base+100, base+102)
+	case "zd":
+		src := newPlus(p)
+		addFam0(src, base+104, base+136)
+		if err := h.Merge(src); err != nil {
+			panic(err)
+		}
+	default:
+		panic("harness: unknown z kind " + kind)
+	}
+	return h
+}
+
+// otherRecord is the marshalled sketch the caller reads into its buffer next: same precision, same representation
+// as the first record (a dense record has the same length), different keys.
+func otherRecord(p uint8, dense bool) []byte {
+	h := newPlus(p)
+	if dense {
+		src := newPlus(p)
+		addFam0(src, 200, 232)
+		if err := h.Merge(src); err != nil {
+			panic(err)
+		}
+	} else {
+		addFam0(h, 200, 202)
+	}
+	return marshal(h)
+}
+
+// ownDesc describes a case in violation messages (formatted only when needed).
+type ownDesc struct {
+	cs *Case
+	rp string
+	n  int
+	c0 uint64
+}
+
+func (d ownDesc) String() string {
+	return fmt.Sprintf("p=%d %s k1=%v k2=%v big=%d marshalled (%s, %d bytes, Count %d), buffer layout %s, r1 and r2 restored from the same bytes, then %v", d.cs.P,
+		d.cs.X.Kind, d.cs.X.K1, d.cs.X.K2, d.cs.X.Big, d.rp, d.n, d.c0, d.cs.Layout, d.cs.Steps)
+}
+
+type ownSketch struct {
+	name     string
+	real     *hll.Plus
+	twin     *hll.Plus // built lazily at the first step that needs it; nil = never touched
+	mutated  bool
+	hist     []func(*hll.Plus) error
+	existing bool
+}
+
+func execOwn(cs *Case) (*V, string) {
+	p := cs.P
+	if cs.X == nil {
+		return &V{"harness/own-case-without-operand", ""}, ""
+	}
+	newTwin := func(hist []func(*hll.Plus) error) *hll.Plus {
+		t := mkOperand(p, cs.X)
+		marshal(t)
+		for _, op := range hist {
+			if err := op(t); err != nil {
+				panic(err)
+			}
+		}
+		return t
+	}
+	o := &ownSketch{name: "the original sketch", real: mkOperand(p, cs.X), existing: true}
+	ret := marshal(o.real)
+	c0 := o.real.Count()
+	pristine := append([]byte(nil), ret...)
+	rp := repr(pristine)
+	n := len(pristine)
+	// the caller's buffer
+	var arena []byte
+	off := 0
+	switch cs.Layout {
+	case "returned": // the slice MarshalBinary returned
+		arena = ret[:n:n]
+	case "arena": // a copy inside a larger buffer (a stream reader's scratch space), sentinels before and after
+		arena = bytes.Repeat([]byte{0xa5}, n+16)
+		off = 8
+		copy(arena[off:], pristine)
+	default:
+		return &V{"harness/own-unknown-layout", cs.Layout}, ""
+	}
+	buf := arena[off : off+n]
+	model := append([]byte(nil), arena...)
+	scribbled := false
+	sig := func(clause string) string {
+		s := "own/" + clause + "/" + rp + "/buffer-left-alone"
+		if scribbled {
+			s = "own/" + clause + "/" + rp + "/buffer-rewritten-by-caller"
+		}
+		return s
+	}
+	desc := ownDesc{cs, rp, n, c0}
+
+	r1 := &ownSketch{name: "r1", real: new(hll.Plus), existing: true}
+	r2 := &ownSketch{name: "r2", real: new(hll.Plus), existing: true}
+	for _, r := range []*ownSketch{r1, r2} {
+		if err := r.real.UnmarshalBinary(buf); err != nil {
+			return viol(sig("unmarshal-error"), "%s: UnmarshalBinary(MarshalBinary()) failed: %v", desc, err), ""
+		}
+	}
+	cl := &ownSketch{name: "c (clone of r1)"}
+	byName := map[string]*ownSketch{"o": o, "r1": r1, "r2": r2, "c": cl}
+	type pair struct {
+		clause, what string
+		real, twin   *hll.Plus
+	}
+	var pairs []pair
+	needTwin := func(x *ownSketch) {
+		if x.twin == nil {
+			x.twin = newTwin(x.hist)
+		}
+	}
+	mutate := func(x *ownSketch, op func(*hll.Plus) error) error {
+		needTwin(x)
+		if err := op(x.real); err != nil {
+			return err
+		}
+		if err := op(x.twin); err != nil {
+			panic(err)
+		}
+		x.hist = append(x.hist, op)
+		x.mutated = true
+		return nil
+	}
+	fill := func(b []byte, v byte) {
+		for i := range b {
+			b[i] = v
+		}
+	}
+	for j, st := range cs.Steps {
+		base := 1000 * (j + 1)
+		switch st {
+		case "buf=00", "buf=ff":
+			v := byte(0)
+			if st == "buf=ff" {
+				v = 0xff
+			}
+			fill(buf, v)
+			fill(model[off:off+n], v)
+			scribbled = true
+		case "buf=other":
+			w := otherRecord(p, rp == "dense")
+			copy(buf, w)
+			copy(model[off:off+n], w)
+			scribbled = true
+		case "add(o)", "add(r1)", "add(r2)", "add(c)":
+			x := byName[st[4:len(st)-1]]
+			if !x.existing {
+				return &V{"harness/own-step-on-missing-sketch", st}, ""
+			}
+			mutate(x, func(h *hll.Plus) error { addFam0(h, base, base+16); return nil })
+		case "r1.merge(zs)", "r1.merge(zd)", "r2.merge(zs)", "r2.merge(zd)":
+			x, kind := byName[st[:2]], st[9:11]
+			z := mkZ(p, kind, base)
+			first := true
+			err := mutate(x, func(h *hll.Plus) error {
+				if first { // the real sketch gets the z that is inspected afterwards, twins get their own
+					first = false
+					return h.Merge(z)
+				}
+				return h.Merge(mkZ(p, kind, base))
+			})
+			if err != nil {
+				return viol(sig("merge-error"), "%s: step %d %s: %v", desc, j, st, err), ""
+			}
+			pairs = append(pairs, pair{"merge-modifies-argument", fmt.Sprintf("the argument %s of step %d", kind, j), z, mkZ(p, kind, base)})
+		case "ze.merge(r1)", "zs.merge(r1)", "ze.merge(r2)", "zs.merge(r2)":
+			x, kind := byName[st[9:11]], st[:2]
+			needTwin(x)
+			z, zt := mkZ(p, kind, base), mkZ(p, kind, base)
+			if err := z.Merge(x.real); err != nil {
+				return viol(sig("merge-error"), "%s: step %d %s: %v", desc, j, st, err), ""
+			}
+			if err := zt.Merge(x.twin); err != nil {
+				panic(err)
+			}
+			addFam0(z, base+300, base+316)
+			addFam0(zt, base+300, base+316)
+			pairs = append(pairs, pair{"merge-result-differs", fmt.Sprintf("the receiver %s of step %d (after adding 16 keys to it)", kind, j), z, zt})
+		case "c=r1.clone":
+			cl.real = r1.real.Clone().(*hll.Plus)
+			cl.hist = append([]func(*hll.Plus) error(nil), r1.hist...)
+			cl.mutated = r1.mutated
+			cl.existing = true
+		default:
+			return &V{"harness/own-unknown-step", st}, ""
+		}
+	}
+
+	// judgement
+	if !bytes.Equal(arena, model) {
+		return viol(sig("buffer-modified-by-sketch-operation"), "%s: the caller's buffer changed although only sketches were operated on (%s; offset of the record in the buffer %d)", desc, firstDiff(arena, model), off), ""
+	}
+	visible := false
+	for _, x := range []*ownSketch{r1, r2, o, cl} {
+		if !x.existing {
+			continue
+		}
+		b, cnt := marshal(x.real), x.real.Count()
+		clause := "restored-sketch-differs"
+		switch x {
+		case o:
+			clause = "original-sketch-changed"
+		case cl:
+			clause = "clone-differs"
+		}
+		if !x.mutated {
+			// nothing was done to this sketch: it is the sketch that was marshalled
+			if !bytes.Equal(b, pristine) || cnt != c0 {
+				return viol(sig(clause+"/untouched"), "%s: %s was not operated on but no longer equals the sketch at marshal time: Count %d, was %d; MarshalBinary %s", desc, x.name, cnt, c0, firstDiff(b, pristine)), ""
+			}
+			continue
+		}
+		needTwin(x)
+		tb, tcnt := marshal(x.twin), x.twin.Count()
+		if !bytes.Equal(b, tb) || cnt != tcnt {
+			return viol(sig(clause+"/operated-on"), "%s: %s differs from the same recipe and operations on a sketch that never went through UnmarshalBinary/Clone: Count %d vs %d; MarshalBinary %s", desc, x.name, cnt, tcnt, firstDiff(b, tb)), ""
+		}
+		visible = visible || !bytes.Equal(b, pristine)
+	}
+	for _, pr := range pairs {
+		b, cnt := marshal(pr.real), pr.real.Count()
+		tb, tcnt := marshal(pr.twin), pr.twin.Count()
+		if !bytes.Equal(b, tb) || cnt != tcnt {
+			return viol(sig(pr.clause), "%s: %s differs from the reference: Count %d vs %d; MarshalBinary %s", desc, pr.what, cnt, tcnt, firstDiff(b, tb)), ""
+		}
+	}
+	if !bytes.Equal(arena, model) {
+		return viol(sig("buffer-modified-by-sketch-observation"), "%s: Count()/MarshalBinary() of the sketches changed the caller's buffer (%s)", desc, firstDiff(arena, model)), ""
+	}
+	return nil, fmt.Sprintf("own:%s,steps=%d,caller-rewrote-buffer=%v,mutation-visible=%v", rp, len(cs.Steps), scribbled, visible)
+}
+
+// ownOperands: the sketches that are marshalled in the own family (every recipe kind of the state family).
+func ownOperands(p uint8, more bool) []*Operand {
+	sets := [][]int{{}, {0}, {0, 1}, rng(0, 4), rng(4, 9), rng(0, 12), rng(0, 24)}
+	if more {
+		sets = append(sets, []int{5}, []int{2, 7}, rng(0, 3), rng(9, 16), rng(12, 24))
+	}
+	return stateOperands(p, sets)
+}
+
 // ---- ladder: (precision, n) enumeration of the error bound, round trip and split-merge at checkpoints
 
 // checkpoints returns the ascending n values at which a ladder is observed.
@@ -633,6 +952,8 @@ func exec(cs *Case) (v *V, outcome string) {
 			v, outcome = execLadder(cs)
 		case "state":
 			v, outcome = execState(cs)
+		case "own":
+			v, outcome = execOwn(cs)
 		default:
 			v = &V{"harness/unknown-family", cs.Fam}
 		}
@@ -820,6 +1141,43 @@ func run(c *vlib.Ctx) {
 		}
 	}
 	lap("state")
+	// own: every valid step sequence up to the depth bound, shortest first, for every precision, buffer layout and
+	// marshalled sketch recipe
+	type ownCfg struct {
+		p       uint8
+		depth   int
+		moreOps bool
+	}
+	ocfg := []ownCfg{{4, 3, false}, {7, 3, false}, {8, 2, false}, {9, 2, false}, {hll.DefaultPrecision, 1, false}}
+	if c.Thorough() {
+		ocfg = []ownCfg{{4, 4, false}, {7, 4, false}, {5, 3, true}, {6, 3, true}, {8, 3, true}, {9, 3, true}, {10, 3, true}, {11, 3, true}, {12, 3, true}, {hll.DefaultPrecision, 2, false}}
+	}
+	maxDepth := 0
+	for _, cf := range ocfg {
+		if cf.depth > maxDepth {
+			maxDepth = cf.depth
+		}
+	}
+own:
+	for d := 0; d <= maxDepth; d++ {
+		seqs := ownSeqs(d)
+		for _, cf := range ocfg {
+			if d > cf.depth {
+				continue
+			}
+			for _, layout := range []string{"returned", "arena"} {
+				for _, op := range ownOperands(cf.p, cf.moreOps) {
+					if expired(fmt.Sprintf("own at depth %d", d)) {
+						break own
+					}
+					for _, sq := range seqs {
+						one(Case{Fam: "own", P: cf.p, X: op, Layout: layout, Steps: sq}, d > 0)
+					}
+				}
+			}
+		}
+	}
+	lap("own")
 	defer lap("ladders")
 	// ladders: one unit of work per (p, key family)
 	for p := uint8(4); p <= 18; p++ {
@@ -869,14 +1227,17 @@ func TestCheck(t *testing.T) {
 			"pair: every unordered pair over {subsets of size<=2} u {runs} (thorough: {size<=3} u {runs}, plus every size-4 subset x the quick family): A.Merge(B) and B.Merge(A) marshal to the same bytes and Count, merging A or B again changes nothing, the result equals the sketch built by adding the union's keys (merged into an empty sketch), B unchanged, round trip of the merged sketch keeps Count. " +
 			"triple: every ordered triple over {subsets of size<=1} u {runs starting at a multiple of 8 with length 4,8,16,24} (thorough: runs starting at a multiple of 4 with length 4,6,8,12,16,24, plus all 2-subsets of the first 10 keys): all 6 merge orders, left and right association, give the bytes of the union's sketch. " +
 			"state: for precision 4, 7, 8, 9 (thorough: every precision 4..12) every unordered pair of operand recipes {sparse-flushed (Add, Count), sparse-pending (Add only: values still buffered in tmpSet), sparse-mixed (Add, Count, Add), dense-merged (result of a Merge), dense-merged+adds, dense-grown (2m ladder keys, converted by Add)} over the key sets {subsets of size<=2 (thorough <=3) of the first 8 keys} u {runs [0,3) [0,4) [4,9) [9,16) [0,12) [0,24)} (mixed recipes split a set in halves; dense-grown with 0, 1, 4 extra keys), merged in BOTH directions: the receiver's bytes and Count equal the sketch built from the union of the keys (hence both directions agree), the argument is unchanged, and adding all 24 keys to the merged sketch / to the argument afterwards does not show in the other. The representation state really reached (sparse with/without pending values, dense) is observed through read-only accessors before the merge and is the outcome class / signature feature: precision 4..6 cannot hold pending values (Add flushes when tmpSet exceeds m/100), 7, 8, 9 hold up to 1, 2, 5. " +
+			"own (ownership / aliasing after marshal->unmarshal): for precision 4, 7 every step sequence of length<=3, for precision 8, 9 of length<=2 and for precision 16 of length<=1 (thorough: 4, 7 length<=4; 5, 6, 8, 9, 10, 11, 12 length<=3; 16 length<=2), for every operand recipe of the state family over the key sets {} {0} {0,1} [0,4) [4,9) [0,12) [0,24) (thorough, at the precisions with length<=3: also {5} {2,7} [0,3) [9,16) [12,24)) - sparse flushed/pending/mixed, dense by Merge, dense by Merge plus adds, dense grown by 2m Adds; the representation of the marshalled bytes is observed and is part of the outcome class / signature - and two buffer layouts (buf is the very slice MarshalBinary returned; buf is a copy inside a larger scratch buffer between sentinel bytes): o is marshalled into buf, r1 and r2 are both restored from the same buf by UnmarshalBinary(buf), then the steps run, alphabet {buf=00, buf=ff, buf=other (the caller overwrites buf with zeroes / 0xff / the marshalled bytes of a different sketch of the same representation); add(o), add(r1), add(r2), add(c) (16 keys nobody else has, different per step position); r1.merge(zs|zd), r2.merge(zs|zd) (a small sparse / a dense sketch of other keys merged into a restored sketch); ze.merge(r1|r2), zs.merge(r1|r2) (a restored sketch merged into an empty / a small sparse sketch, then 16 keys added to that receiver); c=r1.clone (at most once; add(c) only afterwards)}. Judged once at the end of the sequence (every prefix is its own case): buf and its surroundings hold exactly what the caller wrote (no sketch operation or observation writes to it); every sketch nothing was done to (o, r1, r2, c) has the Count() and MarshalBinary() bytes recorded at marshal time whatever happened to buf or to its siblings; every sketch that was added to / merged into equals, in bytes and Count, its twin (same recipe, marshalled once, same Add/Merge calls, never unmarshalled, cloned or near a caller buffer); every merge argument equals a fresh copy of itself; every receiver a restored sketch was merged into equals the receiver its twin was merged into. " +
 			"ladder: for every precision 4..18 and two deterministic key families, keys are added one at a time up to 3m and at every n<=64 and every multiple of m/16 (thorough: every n<=4096 and every multiple of m/64): |Count-n| <= 3*1.04/sqrt(m)*n+0.5 for the sketch and for the sketch merged into an empty sketch (always dense), round trip keeps Count, and at split points sketch(first half).Merge(sketch(second half)) equals the sketch of all n keys. " +
-			"non-trivial = all operand key sets non-empty / n>0 (distinct by construction)",
+			"non-trivial = all operand key sets non-empty / n>0 / own: at least one step (distinct by construction)",
 		Assumptions: []string{
 			"the error-bound clause is decided only for the enumerated (precision, n) ladder points of two fixed key families; 'within the bound for random multisets' is a statistical claim that bounded enumeration cannot decide. For the exhaustively enumerated key sets (precision 4/5) no numeric bound is demanded, because a worst-case key set exceeds any bound; there the clause is checked in its exact form: the merged sketch has the bytes, hence the estimate, of the sketch built from the union",
 			"violation signatures separate the production precision (p=16, hll.DefaultPrecision, the only precision the repo constructs) from p=4..7, p=8..15 and p=17..18",
 			"bound used: 3 standard errors (3*1.04/sqrt(m)*n) plus 0.5 because Count() is an integer",
 			"sketches are compared through MarshalBinary bytes; after Merge the receiver is always in the dense representation, so equal registers give equal bytes",
 			"operand sketches are rebuilt from their keys for every merge instead of being cloned",
+			"own family: the reference for sketches that were operated on is a twin built with the code under test (same recipe, MarshalBinary once because the restored sketch starts from the flushed state, same Add/Merge calls) that never went through UnmarshalBinary or Clone and never shared a buffer; sketches that were not operated on are compared with plain data recorded at marshal time (bytes and Count). Demanding equal MarshalBinary bytes, not only equal Count, follows the other families (equal sketches marshal to equal bytes: the sparse form is flushed and sorted by MarshalBinary, the dense form is the register array)",
+			"own family: nothing is observed between steps so that un-flushed sparse state survives from step to step; each shorter prefix is a case of its own, so the shortest failing sequence is reported. The caller's rewrite of its own buffer (buf=00/ff/other) is mirrored on a harness-side model copy; 'buffer modified' means a difference from that model",
 			"state family: the oracle sketch (all keys added to one fresh sketch, merged into an empty sketch) is built with the code under test (Add, Merge into an empty receiver); the check is metamorphic, like the pair family",
 		},
 		QuickBudgetS: 70, ThoroughBudgetS: 800,
